@@ -609,6 +609,7 @@ def tail_tables():
         body = block_after(src, r"fn %s\(%s\) -> Core \{" % (fname, sig), fname)
         # variants with an arm that calls the function recursively
         desc = []
+        fields = []
         for m in re.finditer(r"Core::([A-Za-z]+) \{[^}]*\} =>", body):
             # the text of this arm: up to the next `Core::X {..} =>` at arm level or the guard arm
             start = m.end()
@@ -616,14 +617,39 @@ def tail_tables():
             arm = body[start:start + nxt.start()] if nxt else body[start:]
             if re.search(r"\b%s\b" % fname, arm) and m.group(1) not in desc:
                 desc.append(m.group(1))
+                # which CHILDREN of the variant the transformation is applied to: the fields of the rebuilt value whose
+                # initialiser calls the function (for Block: the last statement)
+                fs = []
+                built = re.search(r"Core::%s \{(.*)\}" % m.group(1), arm, re.S)
+                if m.group(1) == "Block":
+                    if re.search(r"let last = %s\(last\b" % fname, arm):
+                        fs = ["last"]
+                elif built:
+                    depth, cur, parts = 0, "", []
+                    for ch in built.group(1):
+                        if ch in "([{":
+                            depth += 1
+                        elif ch in ")]}":
+                            depth -= 1
+                        if ch == "," and depth == 0:
+                            parts.append(cur)
+                            cur = ""
+                        else:
+                            cur += ch
+                    parts.append(cur)
+                    for part in parts:
+                        fm = re.match(r"\s*(\w+)\s*:(.*)", part, re.S)
+                        if fm and re.search(r"\b%s\b" % fname, fm.group(2)):
+                            fs.append(fm.group(1))
+                fields.append((m.group(1), fs))
         guard = re.search(r"\n        (\w+) if (skip_\w+)\(\1\) => \w+\.clone\(\),", body)
         if not guard:
             raise TranslateError("convert/mod.rs: %s has no skip guard arm" % fname)
         if not re.search(r"\n        _ => Core::(VarDef|Return) \{", body):
             raise TranslateError("convert/mod.rs: %s has no wrapping default arm" % fname)
-        return desc, guard.group(2)
-    a_desc, a_guard = arms("append_assign", r"core: &Core, assign_to: &Core, name: &Option<Name>, imp: &mut Imports")
-    r_desc, r_guard = arms("append_ret", r"core: &Core")
+        return desc, guard.group(2), fields
+    a_desc, a_guard, a_fields = arms("append_assign", r"core: &Core, assign_to: &Core, name: &Option<Name>, imp: &mut Imports")
+    r_desc, r_guard, r_fields = arms("append_ret", r"core: &Core")
 
     def skips(fn):
         m = re.search(r"fn %s\(core: &Core\) -> bool \{(.*?)\n\}" % fn, src, re.S)
@@ -647,8 +673,12 @@ def tail_tables():
            "/-- variants `append_assign` leaves alone (`skip_assign`) -/",
            "def assignSkips : List String := " + lst(a_skips),
            "/-- variants `append_ret` leaves alone (`skip_return`) -/",
-           "def retSkips : List String := " + lst(r_skips), "", "end MV", ""]
-    return "\n".join(out), {"rows": len(a_desc) + len(r_desc), "assign_descends": a_desc, "ret_descends": r_desc, "assign_skips": a_skips, "ret_skips": r_skips}
+           "def retSkips : List String := " + lst(r_skips),
+           "/-- per variant, the children `append_assign` is applied to (fields of the rebuilt value whose initialiser calls it) -/",
+           "def assignChildren : List (String × List String) := [" + ", ".join('("%s", %s)' % (v, lst(fs)) for v, fs in a_fields) + "]",
+           "/-- per variant, the children `append_ret` is applied to -/",
+           "def retChildren : List (String × List String) := [" + ", ".join('("%s", %s)' % (v, lst(fs)) for v, fs in r_fields) + "]", "", "end MV", ""]
+    return "\n".join(out), {"rows": len(a_desc) + len(r_desc), "assign_descends": a_desc, "ret_descends": r_desc, "assign_skips": a_skips, "ret_skips": r_skips, "assign_children": a_fields, "ret_children": r_fields}
 
 
 TABLES = {"TailTables": tail_tables, "NameTables": name_tables, "StubTables": stub_tables, "OpTables": op_tables, "ClassTables": class_tables, "LexTables": lex_tables, "CoreTables": core_tables, "ConvertTables": convert_tables, "AnnotateTables": annotate_tables}
